@@ -126,6 +126,7 @@ func checkC10(c *Ctx) {
 		}
 	}
 	c.c10Codec(fm, readIndex, msgT, fName)
+	c.c10LoadErrors(readIndex)
 	c.c10NoMemory(pm, storeT, mboxT, readIndex, fLoaded)
 	// ---- D4
 	newFn := p.Func(fileRel, "New")
@@ -315,6 +316,144 @@ func (c *Ctx) c10Codec(fm *fsModel, readIndex *ssa.Function, msgT *types.Named, 
 		}
 		r.Check(okG && what != "", "C10/CODEC", cons, p.Pos(fn.Pos()), name+"() returns persisted "+what, name+"() does not return a persisted field: the value is not what was written to the index")
 	}
+}
+
+// c10LoadErrors: a failure to open or decode the index must surface as an error. If it is
+// swallowed the mailbox reads as empty, and the next delivery rewrites the index from that
+// empty list: everything stored before is lost.
+func (c *Ctx) c10LoadErrors(readIndex *ssa.Function) {
+	r, p := c.R, c.P
+	r.Rule("C10/LOAD/errors", "in readIndex (and its helpers) no return reachable on the error edge of os.Open/os.OpenFile of the index or of gob Decode reports success, except behind an explicit not-exist / io.EOF test of that error")
+	var fns []*ssa.Function
+	for fn := range p.SyncReach(readIndex) {
+		if eng.FuncPkgPath(fn) == eng.Mod+"/"+fileRel {
+			fns = append(fns, fn)
+		}
+	}
+	sortFuncs(fns)
+	n := c.errNotSwallowed("C10/LOAD/errors", fns, func(name string) bool {
+		switch name {
+		case "os.Open", "os.OpenFile", "(*encoding/gob.Decoder).Decode":
+			return true
+		}
+		return false
+	}, true, "an unreadable index is taken for an empty mailbox and the next write replaces it")
+	r.Floor("C10/LOAD/errors", "open/decode calls on the index load path", n, 1)
+}
+
+// errNotSwallowed checks, for every call in fns selected by pick, that no return reachable on
+// the call's error edge reports success. With allowExcuse, paths behind an explicit
+// `err == X` / os.IsNotExist(err) / errors.Is(err, X) test are exempt. It returns the number
+// of calls examined.
+func (c *Ctx) errNotSwallowed(rule string, fns []*ssa.Function, pick func(name string) bool, allowExcuse bool, consequence string) int {
+	r, p := c.R, c.P
+	n := 0
+	ord := map[string]int{}
+	for _, fn := range fns {
+		fn := fn
+		eng.EachInstr(fn, func(in ssa.Instruction) {
+			call, ok := in.(*ssa.Call)
+			if !ok {
+				return
+			}
+			name := eng.CalleeName(call.Common())
+			if !pick(name) {
+				return
+			}
+			var errV ssa.Value = call
+			if tup, isT := call.Type().(*types.Tuple); isT {
+				errV = nil
+				if call.Referrers() != nil {
+					for _, ref := range *call.Referrers() {
+						if e, ok := ref.(*ssa.Extract); ok && e.Index == tup.Len()-1 {
+							errV = e
+						}
+					}
+				}
+			}
+			n++
+			short := name[strings.LastIndex(name, ".")+1:]
+			cons := siteCons(p, call, ord, "error-of:"+short)
+			if errV == nil {
+				r.Bad(rule, cons, p.InstrPos(call), "the error result is discarded")
+				return
+			}
+			aliases := append(eng.ValueAliases(errV), errV)
+			isErr := func(v ssa.Value) bool {
+				for _, a := range aliases {
+					if v == a {
+						return true
+					}
+				}
+				return false
+			}
+			excuse := func(b *ssa.BasicBlock, k int) bool {
+				if !allowExcuse {
+					return false
+				}
+				if rel, ok := eng.EdgeRel(b, k); ok && rel.Op == token.EQL && (isErr(rel.X) || isErr(rel.Y)) && !eng.IsNilConst(rel.X) && !eng.IsNilConst(rel.Y) {
+					return true
+				}
+				if v, pol, ok := eng.CondTruth(b, k); ok && pol {
+					if cc, ok := v.(*ssa.Call); ok {
+						switch eng.CalleeName(cc.Common()) {
+						case "os.IsNotExist", "errors.Is":
+							return len(cc.Call.Args) > 0 && isErr(cc.Call.Args[0])
+						}
+					}
+				}
+				return false
+			}
+			var starts []*ssa.BasicBlock
+			for _, b := range fn.Blocks {
+				for k := 0; k < len(b.Succs) && len(b.Succs) == 2; k++ {
+					rel, ok := eng.EdgeRel(b, k)
+					if !ok || rel.Op != token.NEQ {
+						continue
+					}
+					x, y := rel.X, rel.Y
+					if eng.IsNilConst(x) {
+						x, y = y, x
+					}
+					if eng.IsNilConst(y) && isErr(x) {
+						starts = append(starts, b.Succs[k])
+					}
+				}
+			}
+			if len(starts) == 0 {
+				if errV.Referrers() != nil {
+					for _, ref := range *errV.Referrers() {
+						if _, isRet := ref.(*ssa.Return); isRet {
+							r.Ok(rule, cons, p.InstrPos(call), "the error is returned to the caller")
+							return
+						}
+					}
+				}
+				r.Bad(rule, cons, p.InstrPos(call), "the error is never tested against nil: a failed %s is treated like a success", short)
+				return
+			}
+			succRet := func(in ssa.Instruction) bool {
+				ret, ok := in.(*ssa.Return)
+				if !ok || eng.IsRecoverBlock(ret.Block()) {
+					return false
+				}
+				res := eng.ReturnResults(ret)
+				if len(res) == 0 {
+					return true
+				}
+				e := res[len(res)-1]
+				return !(definitelyNonNilErr(e) || eng.KnownNonNil(e, ret.Block()))
+			}
+			for _, st := range starts {
+				if bad := (&eng.Search{Target: succRet, Edge: func(b *ssa.BasicBlock, k int) bool { return !excuse(b, k) }}).FromBlockStart(st); bad != nil {
+					r.Bad(rule, cons, p.InstrPos(bad), "when %s at %s fails, %s can still report success here: %s", short, p.InstrPos(call), shortFn(fn), consequence)
+					return
+				}
+			}
+			r.Ok(rule, cons, p.InstrPos(call), "every return on the failure edge reports an error")
+		})
+	}
+	return n
 }
 
 func (c *Ctx) c10NoMemory(pm *pairModel, storeT, mboxT *types.Named, readIndex *ssa.Function, fLoaded *types.Var) {
